@@ -93,7 +93,7 @@ def showPair (a : Agent) (p : Pair) : String :=
   let rc := a.remoteOf p.r
   let ra := (rc.map (·.addr)).getD 0
   let rt := (rc.map (·.ty)).getD 0
-  s!"{p.id}:{la}>{ra}:{rt}:{p.state.str}:n{b01 p.nominated}d{b01 p.nomOnSuccess}:c{p.reqCount}:p{a.pairPrio p}:q{p.reqSent}/{p.reqRecv}/{p.respSent}/{p.respRecv}:k{p.pktSent}/{p.pktRecv}/{p.bytesSent}/{p.bytesRecv}"
+  s!"{p.id}:{la}>{ra}:{rt}:{p.state.str}:n{b01 p.nominated}d{b01 p.nomOnSuccess}v{showOpt p.deferredNom}:c{p.reqCount}:p{a.pairPrio p}:q{p.reqSent}/{p.reqRecv}/{p.respSent}/{p.respRecv}:k{p.pktSent}/{p.pktRecv}/{p.bytesSent}/{p.bytesRecv}"
 
 def showRemote (c : Cand) : String := s!"{c.ty}@{c.net}.{c.addr}:p{c.prio}:r{showOpt c.rel}:lr{showMs c.lastRecv}"
 def showLocal (c : Cand) : String := s!"{c.ty}@{c.net}.{c.addr}:p{c.prio}:ls{showMs c.lastSent}"
